@@ -101,7 +101,8 @@ def h_declared(ctx, cfg):
     if unbound:
         f = getattr(p.objs['ns']['K'], 'wrapper')
     try:
-        R = sigtools.signature(f)
+        with sym.concrete():
+            R = sigtools.signature(f)
     except ValueError as e:
         ctx.count('retrieval-ValueError')
         if p.decl['hide_args'] and any(nm in [x for x, _ in p.callee.po + p.callee.pok] for nm in p.decl['names']):
@@ -119,12 +120,14 @@ def h_declared(ctx, cfg):
     info = lambda: dict(reported=str(R), features=p.label(), unbound=unbound)
     if p.emulate:
         try:
-            R2 = inspect.signature(f)
+            with sym.concrete():
+                R2 = inspect.signature(f)
             ctx.require('inspect-sees-the-same-signature', params_key(R2) == params_key(R),
                         lambda: dict(info(), inspect=str(R2)))
         except Exception as e:
             ctx.require('inspect-sees-the-same-signature', False, lambda: dict(info(), exc=repr(e)))
-    Ra = sigtools.signature(f, auto=False)
+    with sym.concrete():
+        Ra = sigtools.signature(f, auto=False)
     ctx.require('declaration-independent-of-auto', params_key(Ra) == params_key(R), lambda: dict(info(), auto_false=str(Ra)))
     if unbound:
         B = S.signature(f)
